@@ -1670,16 +1670,34 @@ def _lookup(tab, idx):
     raise ShimUnsupported('symbolic index array into an n-d array')
 
 
+_ADDR_CACHE = {}
+
+
+def _addresses(c):
+    """int64 array of the memory address of every element slot of carrier c (same shape)."""
+    ptr = c.__array_interface__['data'][0]
+    k = (ptr, c.shape, c.strides)
+    a = _ADDR_CACHE.get(k)
+    if a is None:
+        a = rnp.full(c.shape, ptr, dtype=rnp.int64)
+        for ax, (n_, st) in enumerate(zip(c.shape, c.strides)):
+            shp = [1] * c.ndim
+            shp[ax] = n_
+            a = a + (rnp.arange(n_, dtype=rnp.int64) * st).reshape(shp)
+        if len(_ADDR_CACHE) < 4096:
+            _ADDR_CACHE[k] = a
+    return a
+
+
 def _log_access(kind, arr, key):
     fp = CTX.footprint
     if fp is None:
         return
-    base = arr.c
-    while base.base is not None:
-        base = base.base
-    idx = rnp.arange(arr.c.size).reshape(arr.c.shape)[key]
-    # translate to positions in base through pointer arithmetic is overkill: log (id(base), id of the element objects) instead
-    fp.append((kind, id(base), tuple(rnp.asarray(idx).reshape(-1).tolist()), arr.c.shape, arr.c.strides, arr.c.__array_interface__['data'][0]))
+    try:
+        sel = _addresses(arr.c)[key]
+    except Exception:
+        return
+    fp.append((kind, frozenset(rnp.asarray(sel).reshape(-1).tolist()), arr.c))      # the carrier is kept alive: its addresses cannot be reused
 
 
 # ---------------------------------------------------------------------------------------------
